@@ -40,13 +40,22 @@ Definition peek_ok (enq_first : bool) (q : list Z) (c : obs) (f : fout Z) (x : c
   let st := cl_at_consumer enq_first q (mkOffer (b_enq c) (b_msg c) (b_deq c)) f in
   Bool.eqb (bit fl 14) (cl_peek_rdy st) &&
   (if bit fl 13 then match cl_peek st with Some m => (fld x 52 8 =? m) | None => false end else true).
+(* peek-only watcher block: regs = [consumer's peek value; watcher flags (b0 present | b1 peek.rdy() | b2 peek() called |
+   b3 ran after the consumer's block); watcher's peek value] *)
+Definition watch_ok (k : qkind) (q : list Z) (c : obs) (f : fout Z) (x : ccode) : bool :=
+  let wf := fld x 60 8 in
+  if bit wf 0 then
+    let st := cl_at_watcher k (bit wf 3) q (mkOffer (b_enq c) (b_msg c) (b_deq c)) f in
+    Bool.eqb (bit wf 1) (cl_peek_rdy st) &&
+    (if bit wf 2 then match cl_peek st with Some m => (fld x 68 8 =? m) | None => false end else true)
+  else true.
 Fixpoint cl_first_bad (k : qkind) (n : nat) (enq_first : bool) (q : list Z) (i : nat) (h : list ccode) : option nat :=
   match h with
   | [] => None
   | x :: r =>
       let c := co (cobs_of x) in
       let '(q', f) := cl_step k n enq_first q (mkOffer (b_enq c) (b_msg c) (b_deq c)) in
-      if obs_matches c f && (negb (bit (flags_of x) 15) || peek_ok enq_first q c f x)
+      if obs_matches c f && (negb (bit (flags_of x) 15) || peek_ok enq_first q c f x) && watch_ok k q c f x
       then cl_first_bad k n enq_first q' (S i) r else Some i
   end.
 
